@@ -892,7 +892,7 @@ int main(void)
             if (!conn_released[i]) {
                 int guard = 0;
                 cur = i;
-                while (!xmpp_conn_release(conns[i]) && guard++ < 8) ;
+                while (!xmpp_conn_release(conns[i]) && guard++ < 256) ;
                 conn_released[i] = 1;
             }
         wflush_all();
